@@ -109,7 +109,7 @@ def writer_kwargs(tx):
     kw = {}
     bl = tx.get("blocklimit")
     if bl:
-        kw["codec"] = W3Codec(blocklimit=bl, compression=tx.get("compression", 3))
+        kw["codec"] = W3Codec(blocklimit=bl, compression=tx.get("compression", 3), inlinelimit=tx.get("inlinelimit", 1))
     if tx.get("compound") is False:
         kw["compound"] = False
     return kw
